@@ -23,12 +23,18 @@ def tree_hash() -> str:
     global _TREE_HASH
     if _TREE_HASH is None:
         h = hashlib.sha256()
-        roots = [core.REPO / "src", core.VERIF / "cmverif", core.VERIF / "spaces"]
-        for root in roots:
-            for p in sorted(root.rglob("*")):
-                if p.is_file() and "__pycache__" not in p.parts and not p.name.endswith(".pyc"):
-                    h.update(str(p.relative_to(root)).encode() + b"\0")
-                    h.update(hashlib.sha256(p.read_bytes()).digest())
+        files = []
+        for p in sorted((core.REPO / "src").rglob("*")):
+            if p.is_file() and "__pycache__" not in p.parts and not p.name.endswith(".pyc"):
+                files.append((str(p.relative_to(core.REPO)), p))
+        # the harness modules that determine what is explored and how (monitors and oracles do not)
+        for name in ("progspace.py", "progspace_cst.py", "batch.py", "drive.py", "resultfiles.py", "seqspace.py", "progcheck.py", "manifests_space.py"):
+            files.append((name, core.VERIF / "cmverif" / name))
+        for p in sorted((core.VERIF / "spaces").glob("*.jsonl")):
+            files.append((p.name, p))
+        for rel, p in files:
+            h.update(rel.encode() + b"\0")
+            h.update(hashlib.sha256(p.read_bytes()).digest())
         for v in ("PYTHONHASHSEED",):
             h.update(f"{v}={os.environ.get(v)}".encode())
         _TREE_HASH = h.hexdigest()[:24]
